@@ -41,7 +41,7 @@ def category (req ans : String) : String :=
     let ws := words line
     let mn := match ws with | p :: q :: _ => if p == "rep" || p == "repz" || p == "repnz" then p ++ "+" ++ q else p | p :: _ => p | [] => "?"
     s!"L2 {(words req).headD "x"} {mn} -> {(words ans).headD "?"}"
-  | "asm" :: _ | "asm2" :: _ | "opnd" :: _ | "jsp" :: _ | "asmx" :: _ | "asmre" :: _ => s!"L3 {(words req).headD "asm"} -> {" ".intercalate ((words ans).take 2)}"
+  | "asm" :: _ | "asm2" :: _ | "opnd" :: _ | "jsp" :: _ | "asmx" :: _ | "asmre" :: _ | "role" :: _ => s!"L3 {(words req).headD "asm"} -> {" ".intercalate ((words ans).take 2)}"
   | "cli" :: flag :: _ =>
     let out := (pctDecode (fieldOf ans "out")).getD ""
     let kind := if out.startsWith "Syntax Error" then "syntax diagnostic" else if out.startsWith "Label " then "undefined label"
@@ -50,7 +50,7 @@ def category (req ans : String) : String :=
   | k :: f :: _ => s!"L1 {k} {f}"
   | _ => "?"
 
-def handle (req ans : String) : Verdict :=
+def handle (strict : Bool) (req ans : String) : Verdict :=
   let r := words req
   match r with
   | "x" :: _ => handleL2 req ans
@@ -62,17 +62,18 @@ def handle (req ans : String) : Verdict :=
   | "jsp" :: _ => handleL3 req ans
   | "asmx" :: _ => handleL3 req ans
   | "asmre" :: _ => handleL3 req ans
-  | "cli" :: _ => handleL4 req ans
+  | "role" :: _ => handleL3 req ans
+  | "cli" :: _ => handleL4 strict req ans
   | _ => handleL1 r (words ans)
 
-partial def loop (h : IO.FS.Stream) (out : IO.FS.Stream) (acc : Acc) : IO Acc := do
+partial def loop (strict : Bool) (h : IO.FS.Stream) (out : IO.FS.Stream) (acc : Acc) : IO Acc := do
   let line ← h.getLine
   if line.isEmpty then return acc
   let line := (line.dropEndWhile (fun c => c == '\n' || c == '\r')).toString
-  if line.isEmpty then loop h out acc else
+  if line.isEmpty then loop strict h out acc else
   match line.splitOn " => " with
   | [req, ans] =>
-    let v := handle req ans
+    let v := handle strict req ans
     let cat := category req ans
     let mut acc := { acc with n := acc.n + 1, dist := acc.dist.insert cat ((acc.dist.getD cat 0) + 1) }
     if v.model == "BADREQ" then
@@ -99,17 +100,19 @@ partial def loop (h : IO.FS.Stream) (out : IO.FS.Stream) (acc : Acc) : IO Acc :=
         else
           out.putStrLn s!"DIFF-SPEC {line} | spec={v.spec} kf={v.kf}"
           acc := { acc with diffSpec := acc.diffSpec + 1 }
-    loop h out acc
+    loop strict h out acc
   | _ =>
     out.putStrLn s!"BADLINE {line}"
-    loop h out { acc with n := acc.n + 1, badreq := acc.badreq + 1 }
+    loop strict h out { acc with n := acc.n + 1, badreq := acc.badreq + 1 }
 
 end Driver
 
 def main : IO Unit := do
   let stdin ← IO.getStdin
   let stdout ← IO.getStdout
-  let acc ← Driver.loop stdin stdout {}
+  -- VERIF_STRICT_OUT=1: the text written is itself the property (C16-C18, C20): no wording tolerance
+  let strict := (← IO.getEnv "VERIF_STRICT_OUT") == some "1"
+  let acc ← Driver.loop strict stdin stdout {}
   let kfs := ",".intercalate (acc.kfs.map (fun p => s!"{p.1}:{p.2}"))
   let dist := ";".intercalate (acc.dist.toList.map fun (k, v) => s!"{k.replace " " "_"}={v}")
   stdout.putStrLn s!"DIST {dist}"
